@@ -148,6 +148,14 @@ theorem operators_are_homomorphic (ctx : Ctx ℝ) (l r e : Val ℝ) (a b : ℝ)
     · exact exprNeg_hom ctx l e a h hpl ha
     · cases h
 
+/-- `every_tree_evaluates_to_its_meaning` — the induction over whole build programs.  For every program `p` over bare
+numbers / strings, `Constant`, `Symbol` and the operators `neg + − * / **` (any nesting, direct and reflected forms, every
+short-cut): if the overloaded operators build a tree `e` from it and the plain arithmetic meaning of `p` is `v`, then
+`e` evaluates to `v`.  (`okSub`: no subtraction of the bare empty string.) -/
+theorem every_tree_evaluates_to_its_meaning (ctx : Ctx ℝ) (p : Prog) (e : Val ℝ) (v : ℝ)
+    (hb : p.build = .ok e) (hm : p.meaning ctx = .ok v) (hs : p.okSub) : eval ctx e = .ok v :=
+  (prog_spec ctx p e v hb hm hs).1
+
 /-- `*` and `/` with a `MassAction` operand (`UnaryWrapper`, pinned by `test_rates.py::test_MassAction__expression`): for
 `ma = MassAction([c])` with coefficient value `k`, an operand `o` with value `b` that is not itself a `MassAction`, and the
 mass-action product `P = ∏ cᵢ^νᵢ`: `ma*o`, `o*ma` evaluate to `(k·b)·P`, `ma/o` to `(k/b)·P` and `o/ma` to `(b/k)·P` — the
@@ -224,15 +232,18 @@ theorem piecewise_spec (x : ℝ) (b : List ℝ) :
 
 /-! ## backends -/
 
-/-- `backend_naturality_partial`.  PROVED: for every map `φ` between two number structures that commutes with
-`+ − · / neg`, integer literals and `exp` (floats → magnitudes of unit-carrying quantities in consistent units; numbers →
-symbolic expressions and back by substitution; `math` ↔ `numpy` is the identity), every function translated from
-`arrhenius.py` / `eyring.py` commutes with `φ` — the value does not depend on the backend.
-NOT PROVED (full statement, kept for the record):
-  `∀ v ctx, eval (ctx.map φ) (v.map φ) = (eval ctx v).map φ` for every expression tree `v`, for `φ` that additionally
-  preserves `==`, `<=`, `**`, `log10`, `sin` — the structural induction over `Val` (21 classes) was not completed in the
-  time available; for trees the backend independence is covered by the correspondence/oracle only. -/
-theorem backend_naturality_partial {α β : Type} [Add α] [Sub α] [Mul α] [Div α] [Neg α] [NatCast α] [HasExp α]
+/-- `backend_naturality`.  For every map `φ` between two number structures that commutes with `+ − · / neg`, integer
+literals, `==`, `<=`, `**`, `exp`, `log10`, `sin` (floats ↔ numpy scalars: the identity; numbers → magnitudes of quantities in
+consistent units; numbers → symbolic expressions, and back by substitution), and for EVERY expression tree `v` — all 21
+classes, any nesting, unique keys, defaults, the `reaction` keyword — evaluation commutes with `φ`, outcomes (exceptions)
+included: the value does not depend on the backend. -/
+theorem backend_naturality {α β : Type} [Add α] [Sub α] [Mul α] [Div α] [Neg α] [NatCast α] [PyNum α]
+    [Add β] [Sub β] [Mul β] [Div β] [Neg β] [NatCast β] [PyNum β] (φ : α → β) (h : PyHom φ) (ctx : Ctx α) (v : Val α) :
+    eval (ctx.map φ) (v.map φ) = (eval ctx v).map φ :=
+  eval_nat h ctx v
+
+/-- the same for the functions translated from `arrhenius.py` / `eyring.py` -/
+theorem backend_naturality_rateconst {α β : Type} [Add α] [Sub α] [Mul α] [Div α] [Neg α] [NatCast α] [HasExp α]
     [Add β] [Sub β] [Mul β] [Div β] [Neg β] [NatCast β] [HasExp β] (φ : α → β) (h : BackendHom φ) (x y z : α) :
     φ (Gen.arrheniusEquation x y z) = Gen.arrheniusEquation (φ x) (φ y) (φ z)
     ∧ φ (Gen.eyringEquation x y z) = Gen.eyringEquation (φ x) (φ y) (φ z)
@@ -272,6 +283,26 @@ theorem default_index_wraparound_witness :
 /-- a backend homomorphism exists (`math` ↔ `numpy`: the identity on ℝ) -/
 example : BackendHom (id : ℝ → ℝ) :=
   ⟨fun _ _ => rfl, fun _ _ => rfl, fun _ _ => rfl, fun _ _ => rfl, fun _ => rfl, fun _ => rfl, fun _ => rfl⟩
+
+/-- … and a homomorphism in the sense of `backend_naturality` (the identity; every field is checked) -/
+example : PyHom (id : ℝ → ℝ) where
+  map_add _ _ := rfl
+  map_sub _ _ := rfl
+  map_mul _ _ := rfl
+  map_div _ _ := rfl
+  map_neg _ := rfl
+  map_natCast _ := rfl
+  map_beq _ _ := rfl
+  map_le _ _ := rfl
+  map_pow x y := by cases h : PyNum.pow x y <;> simp [id, h, Except.map]
+  map_exp x := rfl
+  map_log10 x := by cases h : PyNum.log10 x <;> simp [id, h, Except.map]
+  map_sin x := rfl
+
+/-- a build program with a short-cut: `(x + 0) * 1` builds the bare `Symbol` and means `x` -/
+example : (Prog.mul (.add (.sym "x") (.raw 0)) (.raw 1)).build = .ok (symbolNode "x") := by
+  simp [Prog.build, pyAdd, pyMul, exprAdd, exprMul, conv, trivZero, constNode, symbolNode, Val.isNode, Val.isMassAction,
+    isOne, PyNum.isScalar]
 
 /-- a context as required by `as_rate_expr_spec_*`: `2 A + B → …` at 300 K -/
 example : ∃ (ctx : Ctx ℝ) (reac : List (String × ℤ)) (c : String → ℝ),
